@@ -28,8 +28,9 @@ assumptions(PROP, [
     "cycles per traversal = number of hystereses of the second (steady-state) pass, guideline eq. 2.6-91; early failure = number of hystereses "
     "completed while the damage sum is still < 1",
     "tables whose running damage sum comes within 1e-9 of exactly 1 are discarded unless the sum is exact (pandas uses compensated summation)",
-    "one or two assessment points (table without index, or MultiIndex with arbitrary ascending integer point labels; every point has the same "
-    "hysteresis pattern, the second point's P values are scaled); both passes contain at least one hysteresis; collective has the S_min "
+    "one to three assessment points (table without index, or MultiIndex with arbitrary integer point labels; every point has the same "
+    "hysteresis pattern with its P values scaled; rows hysteresis-major, point-major or interleaved with every point's hystereses in order; "
+    "results are read in ascending label order); both passes contain at least one hysteresis; collective has the S_min "
     "column the calculator uses for counting; independence of a point from the rest of a batch is C10's subject",
     "P_A for the safety index in [1e-12, 0.5] (RuntimeError tolerated only below 1e-12); load safety: P_A from the guideline's table, other values raise ValueError",
 ])
@@ -402,15 +403,18 @@ def _table(draw, tier):
             rows.append([P, draw(st.booleans()), run])
     # how the table is indexed: no index at all, or the (hysteresis_index, assessment_point_index) MultiIndex of the docstring with
     # arbitrary integer labels (node ids); a second point carries the same hystereses with all P scaled
-    layout = draw(st.sampled_from(["no_index", "one_point", "one_point", "two_points"]))
+    layout = draw(st.sampled_from(["no_index", "one_point", "multi_point", "multi_point"]))
     label = st.one_of(st.sampled_from([0, 1, 7, 10, 20, 1000003]), st.integers(-5, 60))
     if layout == "no_index":
         points = [{"id": None, "scale": 1.0}]
     elif layout == "one_point":
         points = [{"id": draw(label), "scale": 1.0}]
     else:
-        ids = sorted(draw(st.lists(label, min_size=2, max_size=2, unique=True)))
-        points = [{"id": ids[0], "scale": 1.0}, {"id": ids[1], "scale": draw(st.sampled_from([1.0, 0.5, 2.0, 1.25, 0.8]))}]
+        # 2-3 points; scales far from 1 make one point fail within the two passes while another lives long
+        k = draw(st.integers(2, 3))
+        ids = sorted(draw(st.lists(label, min_size=k, max_size=k, unique=True)))
+        scales = [draw(st.sampled_from([1.0, 0.5, 2.0, 1.25, 0.8, 0.2, 4.0])) for _ in ids]
+        points = [{"id": i, "scale": sc} for i, sc in zip(ids, scales)]
     # a second listing of the same hystereses (see the metamorphic clause in run)
     n = len(rows)
     kind = draw(st.sampled_from(["none", "second_pass_first", "interleaved", "sorted_by_P", "random"]))
@@ -429,7 +433,19 @@ def _table(draw, tier):
         order = list(draw(st.permutations(range(n))))
     else:
         order = None
-    return {"P_Z": PZ, "P_D": PD, "d_1": d1, "d_2": d2, "rows": rows, "regime": regime, "points": points, "order": order, "order_kind": kind}
+    # how the rows of a multi-point table are arranged: hysteresis-major (the recorder's layout), point-major (pd.concat of per-node
+    # collectives, sort_index by point), or any interleaving that keeps every point's hystereses in their order
+    arrangement = None
+    if len(points) > 1:
+        akind = draw(st.sampled_from(["hysteresis_major", "point_major", "point_major", "interleaved", "interleaved"]))
+        if akind == "point_major":
+            arrangement = [j for j in range(len(points)) for _ in range(n)]
+            if draw(st.booleans()):
+                arrangement = arrangement[::-1]           # last point first
+        elif akind == "interleaved":
+            arrangement = list(draw(st.permutations([j for j in range(len(points)) for _ in range(n)])))
+    return {"P_Z": PZ, "P_D": PD, "d_1": d1, "d_2": d2, "rows": rows, "regime": regime, "points": points, "order": order, "order_kind": kind,
+            "arrangement": arrangement}
 
 
 def _literal(case, scale=1.0):
@@ -465,7 +481,8 @@ def _points(case):
           doc="DamageCalculatorPRAM lifetime (traversals, cycles) == literal loop: pass 1 once, pass 2 repeated until the sum reaches 1, "
               "last pass linear, half hystereses weigh 0.5; early failure = hystereses completed with sum < 1; infinite life iff max P of pass 2 <= P_D; "
               "table without index, or with a (hysteresis_index, assessment_point_index) MultiIndex whose point labels are arbitrary integers "
-              "(one or two points, each compared with its own literal accumulation); the same hystereses listed in another row order "
+              "(one to three points with rows hysteresis-major, point-major or interleaved, each point - also one failing within the two passes next to "
+              "a long-lived one - compared with its own literal accumulation, incl. the cumulative_damage column); the same hystereses listed in another row order "
               "(second pass first, interleaved, sorted by P, random) give the same lifetime")
 def lifetime_accumulation(case, ctx):
     ctx.label(case["regime"])
@@ -497,11 +514,30 @@ def _run_table(case, ctx, reordered=False):
                 ctx.skip("running damage sum within 1e-9 of 1")
     wc = pd.Series({"P_RAM_Z": case["P_Z"], "P_RAM_D": case["P_D"], "d_1": case["d_1"], "d_2": case["d_2"]}).woehler_P_RAM
     npt, nh = len(pts), len(rows)
-    col = pd.DataFrame({"P_RAM": [lit["P"][i] for i in range(nh) for lit in lits],
-                        "is_closed_hysteresis": [bool(r[1]) for r in rows for _ in pts],
-                        "run_index": [r[2] for r in rows for _ in pts], "S_min": -1.0, "S_max": 1.0})
+    # (hysteresis, point) of every table row.  ``arrangement`` = which point the k-th row belongs to; every point's hystereses keep
+    # their order, so the literal accumulation of a point does not depend on the arrangement
+    arr = case.get("arrangement")
+    if arr and npt > 1 and len(arr) == nh * npt:
+        nxt = [0] * npt
+        pairs = []
+        for j in arr:
+            pairs.append((nxt[j], j))
+            nxt[j] += 1
+        if not reordered:
+            major = all(a[0] <= b[0] for a, b in zip(pairs[:-1], pairs[1:]))
+            ctx.label("rows_hysteresis_major" if major else "rows_point_major" if all(a[1] == b[1] or b[0] == 0 for a, b in zip(pairs[:-1], pairs[1:])) else "rows_interleaved")
+            if not major and any(l["early"] is not None for l in lits) and any(l["early"] is None for l in lits):
+                ctx.label("not_hysteresis_major_and_some_but_not_all_points_fail_early")
+                ctx.nontrivial()
+    else:
+        pairs = [(i, j) for i in range(nh) for j in range(npt)]
+        if npt > 1 and not reordered:
+            ctx.label("rows_hysteresis_major")
+    col = pd.DataFrame({"P_RAM": [lits[j]["P"][i] for i, j in pairs],
+                        "is_closed_hysteresis": [bool(rows[i][1]) for i, j in pairs],
+                        "run_index": [rows[i][2] for i, j in pairs], "S_min": -1.0, "S_max": 1.0})
     if pts[0][0] is not None:
-        col.index = pd.MultiIndex.from_product([range(nh), [q[0] for q in pts]], names=["hysteresis_index", "assessment_point_index"])
+        col.index = pd.MultiIndex.from_tuples([(i, pts[j][0]) for i, j in pairs], names=["hysteresis_index", "assessment_point_index"])
     with warnings.catch_warnings():
         warnings.simplefilter("ignore")
         calc = dc.DamageCalculatorPRAM(col, wc)
@@ -510,6 +546,10 @@ def _run_table(case, ctx, reordered=False):
         infs = np.asarray(calc.is_life_infinite).reshape(-1)
         pmaxs = np.asarray(calc.P_RAM_max, dtype=float).reshape(-1)
         dall = calc.collective["D"].tolist()
+        call = calc.collective["cumulative_damage"].tolist()
+        out_index = list(calc.collective.index)
+    if pts[0][0] is not None and out_index != [(i, pts[j][0]) for i, j in pairs]:
+        raise Violation("the calculator's collective does not keep the rows of the table it was given", bucket="life:collective_rows")
     if not (len(seqs) == len(cycs) == len(infs) == len(pmaxs) == npt and len(dall) == nh * npt):
         raise Violation("%d assessment point(s) but results of length %d/%d/%d/%d" % (npt, len(seqs), len(cycs), len(infs), len(pmaxs)), bucket="life:result_shape")
     closed = [r[1] for r in rows]
@@ -518,7 +558,12 @@ def _run_table(case, ctx, reordered=False):
         ctx.label("mixed_closed_half" if mixed else "not_mixed")
     for j, ((label, scale), lit) in enumerate(zip(pts, lits)):
         try:
-            _check_point(case, ctx, lit, label, mixed, float(seqs[j]), float(cycs[j]), bool(infs[j]), float(pmaxs[j]), dall[j::npt])
+            mine = [k for k, (i, jj) in enumerate(pairs) if jj == j]           # this point's rows, in hysteresis order
+            for k, w in zip(mine, lit["sums"]):
+                if not _close(call[k], w, 1e-11):
+                    raise Violation("cumulative_damage in table row %d (hysteresis %d of assessment point %r) is %r, literal running sum of that point %r"
+                                    % (k, pairs[k][0], label, call[k], w), bucket="life:cumulative_damage_column")
+            _check_point(case, ctx, lit, label, mixed, float(seqs[j]), float(cycs[j]), bool(infs[j]), float(pmaxs[j]), [dall[k] for k in mine])
         except Violation as v:
             if reordered:
                 raise Violation("same hystereses listed in another row order (run_index column now %r): %s" % ([r[2] for r in rows], v.msg),
